@@ -67,6 +67,9 @@ type Request struct {
 	Write bool
 	seq   int
 	ch    chan Fault
+
+	stallAsked bool
+	heldUntil  int
 }
 
 func (q *Request) String() string { return fmt.Sprintf("%s:%s(%s)", q.Actor.Name, q.Op, q.Key) }
@@ -84,6 +87,8 @@ type Sched struct {
 	FaultsOn bool
 	// TimeJump, if non-nil, is called once per step and may return a duration to advance the fake clock by.
 	TimeJump func() time.Duration
+	// Stall, if non-nil, is asked once per parked request how many scheduling steps to hold it back (0: none).
+	Stall func(q *Request) int
 	// OnStep is called by the scheduler goroutine before each release (all actors parked).
 	OnStep func(step int)
 	Steps  int
@@ -222,6 +227,29 @@ func (s *Sched) Run(maxSteps int) bool {
 				s.R.AddSimTime(d)
 				s.R.Logf("clock +%v", d)
 				continue
+			}
+		}
+		// Stalls: a request may be held back for a number of steps (a slow node); held requests are only
+		// runnable when nothing else is.
+		if s.FaultsOn && s.Stall != nil {
+			for _, q := range ps {
+				if !q.stallAsked {
+					q.stallAsked = true
+					if n := s.Stall(q); n > 0 {
+						q.heldUntil = s.Steps + n
+						s.R.Fault("stall")
+						s.R.Logf("stall %s for %d steps", q, n)
+					}
+				}
+			}
+			var free []*Request
+			for _, q := range ps {
+				if q.heldUntil <= s.Steps {
+					free = append(free, q)
+				}
+			}
+			if len(free) > 0 {
+				ps = free
 			}
 		}
 		i := s.R.Src.Intn(len(ps), "sched_pick")
